@@ -1,6 +1,7 @@
 package props
 
 import (
+	"go/types"
 	"fmt"
 	"sort"
 	"strings"
@@ -127,6 +128,14 @@ func runC13(c *an.Ctx) {
 			c.Proved("LOCK-5", nil, 0, "noblock:"+lock, "no call with a may-block effect (network dial/read/write, http, sleep) while "+lock+" is held", "effect summaries of all callees under the lock")
 		}
 	}
+
+	// LOCK-8 references to guarded storage handed out of the critical section
+	for _, sp := range []an.GuardSpec{spec, listSpec} {
+		escapingReferences(c, sp, scope)
+	}
+
+	// LOCK-7 values carried from one critical section into the addressing of a later one
+	staleAddressing(c, spec, scope)
 
 	// KEYSET
 	keyset(c, scope, "C13")
@@ -283,4 +292,156 @@ func guardedBy(c *an.Ctx, spec an.GuardSpec, scope []*ssa.Function, construction
 			c.Violated("LOCK-4", a.Fn, a.Instr.Pos(), key, desc, why)
 		}
 	}
+}
+
+// staleAddressing (LOCK-7): a guarded write may not be addressed (index, map
+// key) by a value that was loaded from guarded state in an EARLIER critical
+// section of the same lock: between the two sections any other request may
+// have changed that state, so the write lands where a sequential run would not
+// put it (multi-section jobs must re-read after re-locking).
+func staleAddressing(c *an.Ctx, spec an.GuardSpec, scope []*ssa.Function) {
+	p := c.P
+	guarded := func(cl an.Class) bool {
+		for _, r := range spec.Roots {
+			if cl.Root == r.Root && len(cl.Path) > 0 && spec.Exempt(cl) == "" {
+				return true
+			}
+		}
+		return false
+	}
+	n := 0
+	for _, fn := range scope {
+		lf := p.LockFlowOf(fn)
+		has := false
+		for _, l := range lf.Locks {
+			if l == spec.Lock {
+				has = true
+			}
+		}
+		if !has || lf.Ops < 3 {
+			continue // fewer than two critical sections
+		}
+		fi := p.Info(fn)
+		section := func(at ssa.Instruction) string {
+			var ids []string
+			for d := range fi.ReachingAt(at) {
+				if d.Havoc && d.Cls.Root == spec.Roots[0].Root {
+					ids = append(ids, d.ID)
+				}
+			}
+			sort.Strings(ids)
+			return strings.Join(ids, ",")
+		}
+		for _, a := range p.AccessesOf(fn) {
+			if !a.Write || !guarded(a.Cls) {
+				continue
+			}
+			var addr ssa.Value
+			switch x := a.Instr.(type) {
+			case *ssa.Store:
+				addr = x.Addr
+			case *ssa.MapUpdate:
+				addr = x.Key
+			default:
+				continue
+			}
+			n++
+			cur := section(a.Instr)
+			stale := ""
+			// the values the address is COMPUTED from: arithmetic, conversions, field and
+			// element selections and pure functions; what an effectful (network, file) call
+			// returns is new data, not a stale copy of its arguments
+			var walk func(t *an.Term)
+			walk = func(t *an.Term) {
+				if t == nil || stale != "" || t.K == an.KCall {
+					return
+				}
+				if t.K == an.KLoad {
+					if ld, ok := t.Val.(*ssa.UnOp); ok && ld.Parent() == fn && guarded(fi.RefClass(ld.X)) {
+						if s := section(ld); s != cur {
+							stale = "the value of " + short(t.Key()) + " loaded at " + p.Pos(ld.Pos()) + " (critical section " + s + ") addresses a write in critical section " + cur
+							return
+						}
+					}
+				}
+				for _, a := range t.A {
+					walk(a)
+				}
+			}
+			walk(fi.Term(addr))
+			if stale != "" {
+				c.Violated("LOCK-7", fn, a.Instr.Pos(), an.KeyOf(fn, "stale-address:"+a.Cls.String()), "a write of "+a.Cls.String()+" is addressed by guarded state read in an earlier critical section (not re-read after re-locking): the result differs from every sequential run when the state changed in between", stale)
+			} else {
+				c.Proved("LOCK-7", fn, a.Instr.Pos(), an.KeyOf(fn, "fresh-address:"+a.Cls.String()), "the guarded write is addressed only by values read in its own critical section (or by unguarded/local values)", "sections of the loads inside the address term")
+			}
+		}
+	}
+	c.Count("LOCK-7", n)
+}
+
+// escapingReferences (LOCK-8): a function that takes the lock itself may not
+// return a slice, map or pointer that refers to storage the lock protects:
+// the caller would read (or write) it after the critical section has ended.
+// Such functions must hand out a copy made under the lock.
+func escapingReferences(c *an.Ctx, spec an.GuardSpec, scope []*ssa.Function) {
+	p := c.P
+	guarded := func(cl an.Class) bool {
+		if len(cl.Path) == 0 {
+			return false
+		}
+		for _, r := range spec.Roots {
+			if cl.Root != r.Root || len(cl.Path) < len(r.Path) {
+				continue
+			}
+			ok := true
+			for i, x := range r.Path {
+				if cl.Path[i] != x {
+					ok = false
+				}
+			}
+			if ok && spec.Exempt(cl) == "" {
+				return true
+			}
+		}
+		return false
+	}
+	n := 0
+	for _, fn := range scope {
+		lf := p.LockFlowOf(fn)
+		has := false
+		for _, l := range lf.Locks {
+			if l == spec.Lock {
+				has = true
+			}
+		}
+		if !has {
+			continue
+		}
+		fi := p.Info(fn)
+		for _, b := range fn.Blocks {
+			if b == fn.Recover || len(b.Instrs) == 0 {
+				continue
+			}
+			ret, ok := b.Instrs[len(b.Instrs)-1].(*ssa.Return)
+			if !ok {
+				continue
+			}
+			for i, r := range ret.Results {
+				switch r.Type().Underlying().(type) {
+				case *types.Slice, *types.Map, *types.Pointer:
+				default:
+					continue
+				}
+				n++
+				cl := fi.RefClass(r)
+				key := an.KeyOf(fn, fmt.Sprintf("returns-ref:%d:%s", i, spec.Lock))
+				if guarded(cl) {
+					c.Violated("LOCK-8", fn, ret.Pos(), key, an.FuncName(fn)+" takes "+spec.Lock+" and returns a reference into the storage it protects ("+cl.String()+"): the caller uses it after the critical section has ended", "result "+fmt.Sprint(i)+" is not a copy made under the lock")
+				} else {
+					c.Proved("LOCK-8", fn, ret.Pos(), key, "the reference returned by a function that takes "+spec.Lock+" does not point into guarded storage (fresh copy or unguarded value)", "class of the result: "+cl.String())
+				}
+			}
+		}
+	}
+	c.Count("LOCK-8", n)
 }
